@@ -214,7 +214,7 @@ func genMapB(rng *sim.Rng, tier string) *ScenarioB {
 				sc.Ops = append(sc.Ops, Op{K: "clear"})
 			}
 		default:
-			if (kt == "iface" || kt == "ptr") && rng.Intn(3) == 0 {
+			if (kt == "iface" || kt == "ptr" || kt == "ifacem") && rng.Intn(3) == 0 {
 				sc.Ops = append(sc.Ops, Op{K: "poke", Key: rng.Intn(sc.Pool)})
 			} else if kt == "iface" && rng.Intn(3) == 0 {
 				sc.Ops = append(sc.Ops, Op{K: []string{"setbad", "getbad", "delbad", "get1bad"}[rng.Intn(4)], Key: rng.Intn(6)})
